@@ -101,7 +101,7 @@ impl E2Run for UdpBind {
                 pcis.push(pci);
             }
             *t2.lock().unwrap() = (taps.clone(), mtus.clone(), with_arp);
-            let ports = [5000u16, 5001, 5002];
+            let ports = [5000u16, 1, 65535];
             let mut next_id = 1u64;
             let mut machines: Vec<Arc<Machine>> = vec![];
             for (m, pci) in pcis.into_iter().enumerate() {
